@@ -22,7 +22,8 @@ RouteOne(G, r, P) ==
 \* With several groups the code prunes candidates per group (step 3) and may give up although a solution
 \* exists: the model then allows the error as well.  Between two parallel link pairs the code pairs the directions
 \* by its own convention: combinations that are not surely overlapping may be taken, and the error is allowed when no
-\* combination is surely disjoint.
+\* combination is surely disjoint.  The code does not read `relaxable`: every vector is honoured, a relaxable one like
+\* the others (what the clauses demand for the vectors that are not relaxable then holds a fortiori).
 GroupChoices(G, b, fx) ==
   LET all  == Solutions(G, b, fx, "any", FALSE)
       good == {a \in all : \A i \in DOMAIN a : Crosses(a[i], b.reqs[i].inc)}
